@@ -142,10 +142,11 @@ Variable cfg : config.
 
 (* is the frame's id awaited when it is looked up? *)
 Definition awaited (aw : list N) (e : env_step) (f : frame) : bool :=
-  mem (f_id f) (register (e_register e) aw).
+  negb (never_reply cfg (f_typ f)) && mem (f_id f) (register (e_register e) aw).
 
 Definition aw_next (aw : list N) (e : env_step) (f : frame) : list N :=
-  remove (f_id f) (register (e_register e) aw).
+  if never_reply cfg (f_typ f) then register (e_register e) aw
+  else remove (f_id f) (register (e_register e) aw).
 
 Definition state_next (st : state) (e : env_step) (f : frame) : state :=
   mkState (aw_next (s_aw st) e f)
@@ -191,8 +192,9 @@ Proof.
   intros aw e f more. unfold pass_to_handler, expected_dispatch, awaited, aw_next.
   cbn [frame_header h_len h_id h_typ].
   rewrite split_at_app_exact. rewrite N.eqb_refl.
-  set (a := mem (f_id f) (register (e_register e) aw)).
-  set (n := len (f_payload f)).
+  destruct (never_reply cfg (f_typ f)); cbn [negb andb];
+  set (a := mem (f_id f) (register (e_register e) aw));
+  set (n := len (f_payload f));
   destruct a; destruct (pick_handler cfg (f_typ f)) as [w|];
     cbn [andb negb option_map]; unfold call_handler;
     destruct (N.ltb_spec maxbuf n); destruct (N.leb_spec n maxbuf); try lia;
@@ -227,7 +229,9 @@ Proof.
   apply N.eqb_neq in E0. apply N.ltb_ge in E1.
   assert (Hbs : (length bs = length hb + length r0)%nat) by (rewrite <- Happ, app_length; lia).
   unfold len, HeaderSz in *.
-  destruct (mem _ _); destruct (pick_handler _ _);
+  destruct (never_reply cfg (h_typ h)); cbn [negb andb];
+  try match goal with |- context [mem ?a ?b] => destruct (mem a b) end;
+  destruct (pick_handler _ _);
     repeat match goal with |- context [if ?c then _ else _] => destruct c end;
     intro H; inversion H; subst; lia.
 Qed.
